@@ -35,7 +35,8 @@ pub fn bpm(last_hit_object: Option<&HitObject>, timing_points: &[TimingPoint]) -
         .map
         .into_iter()
         // * Get the most common one, or 0 as a suitable default
-        .max_by(|(_, a), (_, b)| a.total_cmp(b))
+        // * On equal durations the beat length that appeared first wins
+        .max_by(|(_, (idx_a, a)), (_, (idx_b, b))| a.total_cmp(b).then_with(|| idx_b.cmp(idx_a)))
         .map_or(0.0, |(beat_len, _)| f64::from_bits(beat_len));
 
     60_000.0 / most_common_beat_len
@@ -44,7 +45,8 @@ pub fn bpm(last_hit_object: Option<&HitObject>, timing_points: &[TimingPoint]) -
 /// Maps `beat_len` to a cumulative duration
 struct BeatLenDuration {
     last_time: f64,
-    map: HashMap<u64, f64>,
+    // Maps to the order of first appearance and the cumulative duration
+    map: HashMap<u64, (usize, f64)>,
 }
 
 impl BeatLenDuration {
@@ -57,7 +59,8 @@ impl BeatLenDuration {
 
     fn add(&mut self, beat_len: f64, curr_time: f64, next_time: f64) {
         let beat_len = (1000.0 * beat_len).round() / 1000.0;
-        let entry = self.map.entry(beat_len.to_bits()).or_default();
+        let n_entries = self.map.len();
+        let (_, entry) = self.map.entry(beat_len.to_bits()).or_insert((n_entries, 0.0));
 
         if curr_time <= self.last_time {
             *entry += next_time - curr_time;
